@@ -1052,6 +1052,14 @@ func (e *engine) closeAndCheck() error {
 	if err := e.drain(); err != nil {
 		return err
 	}
+	if ac := e.blocked; ac != nil && ac.flags&rpcsim.FlagLateAck != 0 && ac.flags&rpcsim.FlagHold != 0 && !e.openedSer[ac.serial] {
+		// The application's thread sits in a call to one of its own objects (directly or queued behind an embargo)
+		// that will not acknowledge the delivery before its gate opens.  Close lifts embargoes and waits for
+		// deliveries in progress, so it would wait for that object too: whether a connection should be hostage to
+		// the application's own un-acknowledging object is not a question of the listed properties; the application
+		// lets its object acknowledge.
+		e.open(ac.serial)
+	}
 	e.closed = true
 	e.logf("Conn.Close()")
 	if err := e.guard("Conn.Close", func() { e.conn.Close() }); err != nil {
